@@ -2185,6 +2185,55 @@ def site_batch_write_buffers(fns):
     return ob.result(it, witness="c20_inflight_buffers_own_their_bytes")
 
 
+# ============================================================================ C18: the read path's stale-extent retry loop is bounded
+def site_resolve_value_bounded(fns):
+    f = mir.find(fns, "::resolve_value", "src/core/store/operations.rs")
+    ob = Ob("site_resolve_value_retry_is_bounded", "FeoxStore::resolve_value (behind get, get_bytes, range_query, CAS, increment, patch), one ARBITRARY iteration of its stale-read retry "
+            "loop with every local havocked: every path that comes back to the loop header has consumed one element of the bounded iterator 0..STALE_READ_RETRY_LIMIT that was built "
+            "before the loop (or strictly increased an integer counter) – whatever the device and the hash table answer, including the SAME generation being found stale again – "
+            "so a read terminates with a value, KeyNotFound or StaleExtent after at most STALE_READ_RETRY_LIMIT attempts",
+            "one iteration from an arbitrary state; callees havocked (each may return anything)", f)
+    hdr = main_loop_header(f)
+    if hdr is None:
+        raise mir.MirError("retry loop not found in resolve_value")
+    it = Interp(f, loop_bound=1, pure=PURE, slices=True, max_paths=4000)
+    ints = [l for l, t in f.locals.items() if t.strip() in ("usize", "u64", "u32", "i32", "u8", "u16")]
+    init_vals = {}
+
+    def init(it_, st):
+        for l in ints:
+            w = {"usize": 64, "u64": 64, "u32": 32, "i32": 32, "u16": 16, "u8": 8}[f.locals[l].strip()]
+            v = z3.BitVec("pre" + l, w)
+            init_vals[l] = v
+            st["env"][l] = v
+    back = 0
+    for p in it.run(init, start=hdr, stop=(hdr,)):
+        ob.paths += 1
+        if p.status == "truncated":
+            ob.truncated += 1
+        if p.status != "backedge":
+            continue
+        back += 1
+        rn = [e for e in p.events if e.kind == "call" and e.callee.endswith("Range<usize> as Iterator>::next")]
+        rebuilt = [e for e in p.events if e.kind == "call" and e.callee.endswith("IntoIterator>::into_iter") and "Range<usize>" in e.callee]
+        if rn and not rebuilt:
+            ob.need(it, p.pc, it.ctx.disc(it.as_u(rn[0].ret)) == 1, "the iteration ran because the bounded range still had an element")
+            continue
+        prog = False
+        for l in ints:
+            v1 = p.env.get(l)
+            if v1 is None or not z3.is_bv(v1) or z3.eq(v1, init_vals[l]):
+                continue
+            okk, _ = it.entails(p.pc, z3.UGT(v1, init_vals[l]))
+            prog = prog or okk
+        ob.must_hold(prog, "a retry that comes back to the loop header consumed retry budget (bounded iterator element or strictly increased counter)")
+    ob.must_hold(back >= 1, "a retrying path was reached")
+    # the budget itself: the range is 0..STALE_READ_RETRY_LIMIT, a constant
+    ob.must_hold(re.search(r"Range::<usize> \{ start: const 0_usize, end: const [\w:]*STALE_READ_RETRY_LIMIT \}", f.text) is not None
+                 or re.search(r"Lt\(.*const [\w:]*STALE_READ_RETRY_LIMIT\)", f.text) is not None, "the retry budget is the constant STALE_READ_RETRY_LIMIT")
+    return ob.result(it, witness="c18_read_of_clobbered_record_terminates")
+
+
 # ============================================================================ C19: which worker owns which shard
 def c19(fns, tier, env):
     return finalize([site_shard_ownership(fns), site_coordinator_liveness(fns), site_flush_worker_requeue(fns)], env)
@@ -3429,7 +3478,7 @@ def site_lock_order(fns):
 
 
 def c18(fns, tier, env):
-    out = [site_lock_order(fns), site_coordinator_liveness(fns), site_force_flush(fns)]
+    out = [site_lock_order(fns), site_coordinator_liveness(fns), site_force_flush(fns), site_resolve_value_bounded(fns)]
     if tier == "thorough":
         out.append(scan_progress_only(fns))
     return finalize(out, env)
@@ -3758,7 +3807,23 @@ def site_publish(fns):
             if linked_ok:
                 ob.must_hold(len(rb) >= 1, "an error after the link removes the published name again")
     ob.must_hold(links >= 1, "the link site was reached")
-    return ob.result(it, witness="c15_migration_is_faithful")
+    # the destination name is removed nowhere but in rollback_publication; in EVERY function that calls it, each call must follow – on the
+    # same path – this guard's own successful hard_link: a name the guard did not create (the link failed, e.g. AlreadyExists) is never removed
+    callers = 0
+    for name, g in fns.items():
+        if "migration.rs" not in name or "rollback_publication(" not in g.text or name.endswith("::rollback_publication"):
+            continue
+        callers += 1
+        itg = Interp(g, loop_bound=1, pure=PURE, max_paths=4000)
+        for p in itg.run():
+            ob.paths += 1
+            for rb in events(p, "DestinationGuard::rollback_publication"):
+                hl = [e for e in events(p, "hard_link") if idx_of(p, e) < idx_of(p, rb)]
+                if ob.must_hold(bool(hl), "rollback_publication in %s is preceded by the hard_link that created the name (same path)" % name.rsplit("::", 1)[-1]):
+                    ob.need(itg, rb.pc, itg.ctx.disc(itg.as_u(hl[-1].ret)) == 0, "the destination name is removed only after this guard's own link SUCCEEDED")
+        ob.queries += itg.queries
+    ob.must_hold(callers >= 1, "a caller of rollback_publication was analysed")
+    return ob.result(it, witness=[("rollback_publication in", "c15_destination_race"), ("own link SUCCEEDED", "c15_destination_race"), ("", "c15_migration_is_faithful")])
 
 
 # ============================================================================ range queries
